@@ -242,3 +242,8 @@ func Range(name string, lo, hi uint64) uint64 {
 func OnTick(n int, f func()) {
 	time.AfterFunc(time.Duration(n)*20*time.Millisecond, f)
 }
+
+// TimeBack returns base - ageSec seconds exactly.
+func TimeBack(base time.Time, ageSec uint64) time.Time {
+	return base.Add(-time.Duration(ageSec) * time.Second)
+}
